@@ -260,3 +260,33 @@ for _cls, _field in (("BudgetScenario", "alloc"), ("CoverageScenario", "coverage
                  ("C09+C11.the_scenarios_overwrite_is_in_force_from_the_start_year", "len(result.%s['prog'].t) == 1 and result.%s['prog'].t[0] == Y and result.%s['prog'].vals[0] == S" % (_field, _field, _field)),
                  ("C09.no_other_overwrite_is_introduced", " and ".join("len(result.%s) == %d" % (f, 1 if f == _field else 0) for f in ("alloc", "capacity", "coverage")))],
         defined_props=["C09", "C11"])
+
+
+# ---- ParameterScenario.add (C09: a scenario changes what it names from the years it names): the overwrite is stored under its own (parameter, population), as copies
+# of the years and values given; entries for other parameters and populations are left as they are; a second overwrite of the same pair replaces the first
+def _env_add(existing):
+    def make(it):
+        import numpy as np
+        from pyvc.interp import PyObjV
+        from pyvc import source
+
+        other = {"t": np.array([2010.0]), "y": np.array([1.0])}
+        old = {"t": np.array([2000.0]), "y": np.array([9.0])}
+        values = {"q": {"children": other}}
+        if existing:
+            values["p"] = {"adults": old, "children": other}
+        T, Y = np.array([2020.0, 2025.0]), np.array([0.5, 0.25])
+        return {"self": PyObjV("ParameterScenario", source.load("scenarios"), {"name": "scen", "scenario_values": values}), "par_name": "p", "pop_name": "adults", "t": T, "y": Y, "T": T, "Y": Y, "OTHER": other}
+
+    return make
+
+
+for _tag, _existing in (("new_entry", False), ("replacing_an_entry", True)):
+    CONTRACTS["scenarios:ParameterScenario.add#%s" % _tag] = dict(
+        schema=schema, make_env=_env_add(_existing),
+        ensures=[("C09.the_overwrite_is_stored_under_its_own_parameter_and_population", "list(self.scenario_values['p']['adults']['t']) == [2020.0, 2025.0] and list(self.scenario_values['p']['adults']['y']) == [0.5, 0.25]"),
+                 ("C09+C08.the_stored_years_and_values_are_copies", "self.scenario_values['p']['adults']['t'] is not T and self.scenario_values['p']['adults']['y'] is not Y"),
+                 ("C09.other_overwrites_are_left_as_they_are", "self.scenario_values['q']['children'] is OTHER and len(self.scenario_values['q']) == 1 and len(self.scenario_values) == 2 and len(self.scenario_values['p']) == %d%s" % (2 if _existing else 1, " and self.scenario_values['p']['children'] is OTHER" if _existing else ""))],
+        defined_props=["C09"])
+CONTRACTS["scenarios:ParameterScenario.add#years_and_values_of_different_length"] = dict(
+    schema=schema, make_env=lambda it: dict(_env_add(False)(it), y=[0.5]), raises={"AssertionError": "True"}, raises_props=["C09", "C18"], ensures=[], defined_props=["C09"])
